@@ -206,6 +206,9 @@ void cv_wait(void *cv, void *m) {
   std::unique_lock<std::mutex> lk(G);
   int me = my_id;
   if (!mtx[m].locked || mtx[m].owner != me) fail("cv-wait-without-mutex");
+  // the waiter may be preempted between evaluating its predicate and blocking; it still holds the mutex, so only a
+  // notifier that does NOT take the mutex can slip in here (the classic lost wake-up window)
+  sched_point_locked(lk);
   unlock_nosched(m);
   ths[me]->st = BLK_CV;
   ths[me]->on = cv;
